@@ -25,6 +25,7 @@ import (
 	"github.com/flant/shell-operator/pkg/task/queue"
 	utils "github.com/flant/shell-operator/pkg/utils/labels"
 	"github.com/flant/shell-operator/pkg/utils/measure"
+	"github.com/flant/shell-operator/pkg/utils/verifsched"
 	"github.com/flant/shell-operator/pkg/webhook/admission"
 	"github.com/flant/shell-operator/pkg/webhook/conversion"
 )
@@ -760,6 +761,7 @@ func (op *ShellOperator) CombineBindingContextForHook(q *queue.TaskQueue, t task
 			otherTasks = append(otherTasks, tsk)
 		}
 	})
+	verifsched.Point("combine.afterIterate", t.GetQueueName())
 
 	// no tasks found to combine
 	if len(otherTasks) == 0 {
